@@ -12,6 +12,7 @@ type Engine struct {
 	local        Mode
 	main         Mode
 	prefixed     inputrc.Bind
+	prefixedLen  int // Number of keys that the prefixed bind has matched.
 	active       inputrc.Bind
 	pending      []inputrc.Bind
 	skip         bool
